@@ -31,7 +31,30 @@ def _run(R):
     hier = ExcHierarchy(repo)
     conv = repo.fn("decorators.convert_asynq_to_async")
     wrappers = [f for f in conv.nested.values()]
+    front = None
+    if len(wrappers) != 2:
+        # a front function that hands `fn` on to the builder: the builder is analysed in its place, the front separately below
+        for c in q.calls(conv.node):
+            nm = q.call_name(c)
+            cand = repo.fn_opt("decorators.%s" % nm) if nm and nm.isidentifier() else None
+            if cand is not None and cand is not conv and len(cand.nested) == 2 and c.args and q.src(c.args[0]) == conv.node.args.args[0].arg:
+                front, conv = conv, cand
+                wrappers = [f for f in conv.nested.values()]
+                break
     R.need(len(wrappers) == 2, "idiom: convert_asynq_to_async no longer defines two wrappers")
+    if front is not None:
+        # the coroutine function closes over *this* fn: what the front returns must be built for the fn it was given, never looked up
+        # under a key that several functions share (code object, name, qualname: closures of one factory share all three)
+        mod_tables = set()
+        for targets, value, node in repo.module_assigns(front.module):
+            if isinstance(value, (ast.Dict, ast.List, ast.Set)) or (isinstance(value, ast.Call) and (q.call_name(value) or "").split(".")[-1] in
+                    ("dict", "list", "set", "WeakKeyDictionary", "WeakValueDictionary", "OrderedDict", "defaultdict", "LRUCache")):
+                mod_tables.update(targets)
+        used = sorted(set(n.id for n in ast.walk(front.node) if isinstance(n, ast.Name) and n.id in mod_tables))
+        R.check(not used, "C15.FRESH-WRAPPER", front.qualname, R.site(front),
+                "fn.asyncio is built from the function it is asked for (no table shared between functions)",
+                "%s takes the coroutine function from the module-level table %s: two asynq functions that share the key (closures made by one factory "
+                "share __code__, __name__ and __qualname__) get one wrapper, so .asyncio() of the second runs the first one's closure" % (front.qualname, ", ".join(used)))
     gen_w = [w for w in wrappers if any(q.attr_call(c)[1] in ("send", "throw") for c in q.calls(w.node))]
     plain_w = [w for w in wrappers if w not in gen_w]
     R.need(len(gen_w) == 1 and len(plain_w) == 1, "idiom: cannot tell the generator wrapper from the plain wrapper")
